@@ -187,6 +187,7 @@ func init() {
 		ruleKeyMapLookupN(c, r, 4, "ytypes", "node.go", "gnmi.go", "list.go")
 		ruleLeafListReplace(c, r)
 		ruleDispatchTotal(c, r)
+		ruleCreateOnMiss(c, r)
 	})
 	register("C14", func(c *Ctx, r *Report) {
 		r.Decides("pruneBranchesInternal's result flag is monotone; every Set writes a zero value into an empty struct-pointer/ordered-map field; ordered maps are recognised before struct pointers are dereferenced (no reflection into unexported fields); non-pointer leaves are compared with their type's zero value.",
@@ -285,6 +286,7 @@ func init() {
 		ruleListMerge(c, r)
 		ruleOptsForward(c, r, c.anchored("C31", "ytypes/leaf.go", "ytypes/choice.go"), 9)
 		ruleDispatchTotal(c, r)
+		ruleCreateOnMiss(c, r)
 	})
 }
 
@@ -435,6 +437,7 @@ func init() {
 		ruleKeyMapLookupN(c, r, 4, "ytypes", "node.go", "gnmi.go", "list.go")
 		ruleIntBase(c, r)
 		ruleLossyNum(c, r, c.funcsInScope(func(s string) bool { return s == "ytypes/leaf.go" || s == "ytypes/leaf_list.go" || s == "ytypes/util_types.go" || s == "ygot/render.go" }, libPkgs), 2)
+		ruleCreateOnMiss(c, r)
 	})
 	register("C23", func(c *Ctx, r *Report) {
 		r.Decides("DiffSetRequestToNotifications expands notification leaves exactly like intent leaves and classifies every intent leaf by the (present, reflect.DeepEqual) table with the intent on side A, removes handled paths from the leftovers, and reports as extra only leftovers strictly below deleted/replaced paths; the intent side is the rule set of C22 (normal form, path formatting).",
